@@ -66,7 +66,7 @@ def run(res):
     failing = 0
     slow = []
     for r in recs:
-        why = parsestage.agree(r)
+        why = parsestage.agree(r, with_expansion=False)     # the generated code is C14's and C15's business
         if why:
             dis.append((r, why))
         # the property itself, on what the implementation did
